@@ -1,5 +1,6 @@
 # SPDX-License-Identifier: MIT
 import abc
+import operator
 import typing
 from copy import deepcopy
 from keyword import iskeyword
@@ -81,6 +82,10 @@ class ItemAttributeList(List[T]):
         self._item_dict[item_name] = item
 
     def insert(self, index: SupportsIndex, obj: T) -> None:
+        # make sure that the index is usable before the name of the
+        # object is registered (raises TypeError otherwise)
+        index = operator.index(index)
+
         self._add_attribute_item(obj)
 
         list.insert(self, index, obj)
